@@ -39,6 +39,10 @@ def native_same(a, b):
         if isinstance(x, dict) != isinstance(y, dict):
             return False
         if isinstance(x, dict):
+            # the parser additionally reports a trailing free-text argument under the key '' when a command contains a
+            # valueless letter; merge-mode commands are letter/number words by assumption, the '' entry is not compared
+            x = dict((l, v) for l, v in x.items() if l != "")
+            y = dict((l, v) for l, v in y.items() if l != "")
             if set(x.keys()) != set(y.keys()):
                 return False
             for l in x:
